@@ -490,7 +490,7 @@ func checkTerm(t *Term, origin string) {
 	n := 0
 	number(t, &n)
 	id := t.String()
-	if plib.Only != "" && plib.Only != id {
+	if plib.Only != "" && plib.Only != id && plib.Only != "term:"+id && plib.Only != "term2:"+id {
 		return
 	}
 	const maxMoves, budget = 8, 400
@@ -782,7 +782,7 @@ func runC09() {
 	var rec func(g gen)
 	check := func(g gen) {
 		id := g.Name + ":" + strings.Join(hist, ",")
-		if plib.Only != "" && plib.Only != id {
+		if plib.Only != "" && plib.Only != id && plib.Only != "hist:"+id {
 			return
 		}
 		var rl []string
